@@ -58,7 +58,7 @@ CLAIMED = {
          "C02_<year>_<i>: for EVERY value store (a function from line names to rationals, lines the form never fills read 0), the arithmetic "
          "expression compiled from the translated line body equals the instruction's term (lra over Q after case analysis of max/min/if). "
          "The same lemmas are also stated on the STORED value through Xexp.tsem (C02x_<year>_<i>: whatever the interpreter stores for the "
-         "line equals the rounding of the instruction's term) - about 68 of the 73 lines per year, tied to the interpreter by the proved "
+         "line equals the rounding of the instruction's term) - all 73 lines per year that carry a lemma (sums over constant lists included), tied to the interpreter by the proved "
          "XexpProofs.xtop_sound, including the conditional-blank lines (`a - b if a > b else None`). "
          "ArithProofs.compile_sound proves, for the core fragment (+, -, literal*, max, min, float(), reads), that Forms.line_value - the "
          "validated model of FloatField.value - is exactly the rounding of that expression. About 75 lines per year; the list of lines proved on the "
@@ -70,8 +70,8 @@ CLAIMED = {
     design_ref='DESIGN.md §4 C02',
     note="Coverage is limited by what the templates say: only IRS forms carry instruction text, only sentences the strict phrase grammar "
          "consumes completely yield an obligation (counted in evidence: ~107 widgets with arithmetic words, ~80 parsed per year), and conditional "
-         "instructions depending on form structure are outside. Sums over constant lists (about 5 lines per year) are compiled by the "
-         "extended fragment only, whose soundness is validated (translator validation) rather than proved. Statement is over exact decimals "
+         "instructions depending on form structure are outside. The older Arith.compile path (core fragment proved, extended fragment "
+         "validated) is kept beside it as a second derivation of the same lemmas. Statement is over exact decimals "
          "before rounding; binary64 is outside. Trusted: tools/pdf_reader.py, tools/instr.py, tools/gen_forms.py, one override "
          "(oracles/instr_overrides.json). Print Assumptions: closed under the global context.",
     technique='Rocq per-line lemmas (lra over Q) over arithmetic terms compiled from regenerated line bodies, compile_sound proof to the Forms interpreter, instruction oracle parsed from the bundled PDFs',
